@@ -171,16 +171,107 @@ def r12(ctx: RuleCtx) -> None:
 
 # ---------------------------------------------------------------------------
 # R13
+NORMALISERS = ('resolve', 'normpath', 'abspath', 'realpath')     # collapse `..` (absolute / as_posix / str / Path do not)
+
+
+def _unwrap_path(e: ast.AST) -> T.Tuple[ast.AST, bool]:
+    """e without its path wrappers (.resolve() / os.path.normpath / str / Path ...), and whether one of them collapses `..` components."""
+    normalised = False
+    while True:
+        if isinstance(e, ast.Call) and isinstance(e.func, ast.Attribute) and e.func.attr in ('resolve', 'absolute', 'as_posix') and not e.args:
+            normalised = normalised or e.func.attr in NORMALISERS
+            e = e.func.value
+        elif isinstance(e, ast.Call) and (attr_chain(e.func) or '').split('.')[-1] in ('normpath', 'abspath', 'realpath', 'str', 'Path', 'PurePath') and len(e.args) == 1:
+            normalised = normalised or (attr_chain(e.func) or '').split('.')[-1] in NORMALISERS
+            e = e.args[0]
+        else:
+            return e, normalised
+
+
+def fuse_generators(fn: ast.FunctionDef) -> ast.FunctionDef:
+    """Normal form: `for T in g(): BODY` where g is a generator closure of fn without parameters (only `yield E` statements, no return)
+    reads as the body of g with every `yield E` replaced by `T = E; BODY` (the locals of g renamed apart).  Returns a copy."""
+    gens: T.Dict[str, ast.FunctionDef] = {}
+    for n in ast.walk(fn):
+        if isinstance(n, ast.FunctionDef) and n is not fn and not n.args.args and not n.args.vararg and not n.args.kwarg and not n.args.kwonlyargs:
+            ys = [y for y in walk_no_nested(n) if isinstance(y, (ast.Yield, ast.YieldFrom))]
+            if ys and all(isinstance(y, ast.Yield) and y.value is not None for y in ys) and not any(isinstance(r, ast.Return) for r in walk_no_nested(n)):
+                yst = [st for st in walk_no_nested(n) if isinstance(st, ast.Expr) and isinstance(st.value, ast.Yield)]
+                if len(yst) == len(ys):
+                    gens[n.name] = n
+    if not gens:
+        return fn
+    fn = copy.deepcopy(fn)
+    gens = {n.name: n for n in ast.walk(fn) if isinstance(n, ast.FunctionDef) and n.name in gens and n is not fn}
+
+    class Ren(ast.NodeTransformer):
+        def __init__(self, names: T.Set[str], pre: str):
+            self.names, self.pre = names, pre
+
+        def visit_Name(self, n: ast.Name) -> ast.AST:
+            return ast.copy_location(ast.Name(id=self.pre + n.id, ctx=n.ctx), n) if n.id in self.names else n
+
+    def fuse(loop: ast.For) -> T.Optional[T.List[ast.stmt]]:
+        it = loop.iter
+        if not (isinstance(it, ast.Call) and isinstance(it.func, ast.Name) and it.func.id in gens and not it.args and not it.keywords):
+            return None
+        if loop.orelse or any(isinstance(b, ast.Break) for st in loop.body for b in walk_no_nested(st)):
+            return None
+        g = gens[it.func.id]
+        stored = {n.id for st in g.body for n in ast.walk(st) if isinstance(n, ast.Name) and isinstance(n.ctx, (ast.Store, ast.Del))}
+        body = [Ren(stored, f'_g_{g.name}_').visit(copy.deepcopy(st)) for st in g.body]
+
+        def repl(block: T.List[ast.stmt]) -> T.List[ast.stmt]:
+            out: T.List[ast.stmt] = []
+            for st in block:
+                if isinstance(st, ast.Expr) and isinstance(st.value, ast.Yield):
+                    v = T.cast(ast.expr, st.value.value)
+                    tgt = loop.target
+                    if isinstance(tgt, (ast.Tuple, ast.List)) and isinstance(v, ast.Tuple) and len(tgt.elts) == len(v.elts) \
+                            and not any(isinstance(x, ast.Starred) for x in list(tgt.elts) + list(v.elts)):
+                        out += [ast.copy_location(ast.Assign(targets=[copy.deepcopy(t_)], value=v_, lineno=st.lineno), st) for t_, v_ in zip(tgt.elts, v.elts)]
+                    else:
+                        out.append(ast.copy_location(ast.Assign(targets=[copy.deepcopy(tgt)], value=v, lineno=st.lineno), st))
+                    out += copy.deepcopy(loop.body)
+                    continue
+                for f in ('body', 'orelse', 'finalbody'):
+                    sub = getattr(st, f, None)
+                    if isinstance(sub, list) and sub and isinstance(sub[0], ast.stmt) and not isinstance(st, (ast.FunctionDef, ast.ClassDef)):
+                        setattr(st, f, repl(sub))
+                for hd in getattr(st, 'handlers', []) or []:
+                    hd.body = repl(hd.body)
+                out.append(st)
+            return out
+        res = repl(body)
+        for r in res:
+            ast.fix_missing_locations(r)
+        return res
+
+    def walk_blocks(node: ast.AST) -> None:
+        for f in ('body', 'orelse', 'finalbody'):
+            block = getattr(node, f, None)
+            if not (isinstance(block, list) and block and isinstance(block[0], ast.stmt)):
+                continue
+            new: T.List[ast.stmt] = []
+            for st in block:
+                r = fuse(st) if isinstance(st, ast.For) else None
+                if r is not None:
+                    new += r
+                else:
+                    new.append(st)
+            setattr(node, f, new)
+            for st in new:
+                walk_blocks(st)
+        for hd in getattr(node, 'handlers', []) or []:
+            walk_blocks(hd)
+    walk_blocks(fn)
+    return fn
+
+
 def _join_base(e: ast.AST, leaf_pred: T.Callable[[ast.AST], bool]) -> T.Optional[T.List[ast.AST]]:
     """e joins a leaf (recognised by leaf_pred) onto a base directory: `<base> / leaf`, `os.path.join(<base>.., leaf)`, `Path(<base>, leaf)`,
     possibly wrapped in .resolve() / os.path.normpath / str / Path.  Returns the base operand expressions."""
-    while True:
-        if isinstance(e, ast.Call) and isinstance(e.func, ast.Attribute) and e.func.attr in ('resolve', 'absolute', 'as_posix') and not e.args:
-            e = e.func.value
-        elif isinstance(e, ast.Call) and (attr_chain(e.func) or '').split('.')[-1] in ('normpath', 'abspath', 'realpath', 'str', 'Path', 'PurePath') and len(e.args) == 1:
-            e = e.args[0]
-        else:
-            break
+    e = _unwrap_path(e)[0]
     if isinstance(e, ast.BinOp) and isinstance(e.op, ast.Div) and leaf_pred(e.right):
         return [e.left]
     if isinstance(e, ast.Call) and (attr_chain(e.func) or '').split('.')[-1] in ('join', 'Path', 'PurePath', 'joinpath') and len(e.args) >= 2 and leaf_pred(e.args[-1]):
@@ -188,6 +279,42 @@ def _join_base(e: ast.AST, leaf_pred: T.Callable[[ast.AST], bool]) -> T.Optional
     if isinstance(e, ast.Call) and isinstance(e.func, ast.Attribute) and e.func.attr == 'joinpath' and len(e.args) == 1 and leaf_pred(e.args[0]):
         return [e.func.value]
     return None
+
+
+def _normalised_before_compare(fn: ast.AST, site: ast.AST) -> T.Optional[T.Tuple[bool, ast.AST]]:
+    """site: the outermost expression of a join (wrappers included).  (True, site) when a wrapper collapses `..`; (False, comparison) when the
+    join (or the single-definition local it is stored in) is an operand of == / != / in / not in without one; None when its use was not read."""
+    if _unwrap_path(site)[1]:
+        return True, site
+    parents: T.Dict[int, ast.AST] = {id(c): p for p in ast.walk(fn) for c in ast.iter_child_nodes(p)}
+
+    def use(e: ast.AST, depth: int = 0) -> T.Optional[T.Tuple[bool, ast.AST]]:
+        par = parents.get(id(e))
+        if par is None or depth > 3:
+            return None
+        if isinstance(par, ast.Compare) and all(isinstance(o, (ast.Eq, ast.NotEq, ast.In, ast.NotIn)) for o in par.ops):
+            return False, par
+        if isinstance(par, ast.Call) and _unwrap_path(par)[0] is not par:
+            # a wrapper around the site that the join reader did not include (e.g. str(...)): look further out
+            top: ast.AST = par
+            while isinstance(parents.get(id(top)), ast.Call) and _unwrap_path(T.cast(ast.AST, parents.get(id(top))))[0] is not parents.get(id(top)):
+                top = T.cast(ast.AST, parents.get(id(top)))
+            if _unwrap_path(top)[1]:
+                return True, top
+            return use(top, depth + 1)
+        if isinstance(par, ast.Assign) and par.value is e and len(par.targets) == 1 and isinstance(par.targets[0], ast.Name):
+            v = par.targets[0].id
+            stores = [n for n in ast.walk(fn) if isinstance(n, ast.Name) and n.id == v and isinstance(n.ctx, ast.Store)]
+            loads = [n for n in ast.walk(fn) if isinstance(n, ast.Name) and n.id == v and isinstance(n.ctx, ast.Load)]
+            if len(stores) != 1 or not loads:
+                return None
+            res = [use(l, depth + 1) for l in loads]
+            if any(r is None for r in res):
+                return None
+            bad = [r for r in res if r is not None and not r[0]]
+            return bad[0] if bad else T.cast(T.Tuple[bool, ast.AST], res[0])
+        return None
+    return use(site)
 
 
 def _isinstance_arms(fn: ast.AST, cls_name: str) -> T.List[T.Tuple[str, ast.AST, ast.AST]]:
@@ -206,12 +333,25 @@ def _isinstance_arms(fn: ast.AST, cls_name: str) -> T.List[T.Tuple[str, ast.AST,
             r = tested(n.test)
             if r:
                 out.append((r[0], n.body if r[1] else n.orelse, n.test))
+        if isinstance(n, ast.BoolOp) and isinstance(n.op, ast.And) and not any(isinstance(p_, ast.If) and p_.test is n for p_ in ast.walk(fn)):
+            for k, v in enumerate(n.values):
+                r = tested(v)
+                if r and r[1] and n.values[k + 1:]:
+                    out.append((r[0], ast.Module(body=[ast.copy_location(ast.Expr(value=x), x) for x in n.values[k + 1:]], type_ignores=[]), v))
         for field in ('body', 'orelse', 'finalbody'):
             block = getattr(n, field, None)
             if not isinstance(block, list):
                 continue
             for i, st in enumerate(block):
                 if not isinstance(st, ast.If):
+                    continue
+                if isinstance(st.test, ast.BoolOp) and isinstance(st.test.op, ast.And):
+                    # `isinstance(v, C) and rest`: the rest of the conjunction and the body run under the test
+                    for k, v in enumerate(st.test.values):
+                        r = tested(v)
+                        if r and r[1]:
+                            rest = [ast.copy_location(ast.Expr(value=x), x) for x in st.test.values[k + 1:]]
+                            out.append((r[0], ast.Module(body=rest + list(st.body), type_ignores=[]), v))
                     continue
                 r = tested(st.test)
                 if not r:
@@ -247,7 +387,7 @@ def r13(ctx: RuleCtx) -> None:
     n = 0
     for qn in ('Rewriter.add_src_or_extra', 'Rewriter.rm_src_or_extra'):
         fn = T.cast(ast.FunctionDef, mod.func(qn))
-        fn = SP.inline_trivial_helpers(mod, fn, 'Rewriter')
+        fn = fuse_generators(SP.inline_trivial_helpers(mod, fn, 'Rewriter'))
         tparams = [a.arg for a in fn.args.args if a.annotation is not None and 'Target' in norm(a.annotation)]
         if len(tparams) != 1:
             raise Undecided(f'{qn}: the target parameter was not found by its annotation')
@@ -259,11 +399,21 @@ def r13(ctx: RuleCtx) -> None:
         sites: T.List[T.Tuple[str, ast.AST, T.List[ast.AST]]] = []
         for cls_name, leaf in (('str', lambda v: v), ('StringNode', lambda v: f'{v}.value')):
             for var, arm, test in _isinstance_arms(fn, cls_name):
-                want = leaf(var)
+                names = {var}
+                grew = True
+                while grew:      # copies of the tested variable inside the arm (`lit = j`)
+                    grew = False
+                    for a_ in ast.walk(arm):
+                        if isinstance(a_, ast.Assign) and isinstance(a_.value, ast.Name) and a_.value.id in names:
+                            for t_ in a_.targets:
+                                if isinstance(t_, ast.Name) and t_.id not in names:
+                                    names.add(t_.id)
+                                    grew = True
+                want = {leaf(v_) for v_ in names}
                 for e in ([arm] if isinstance(arm, ast.expr) else list(ast.walk(arm))):
                     if not isinstance(e, (ast.BinOp, ast.Call)):
                         continue
-                    base = _join_base(e, lambda l, want=want: norm(_strip_str(l)) == want)
+                    base = _join_base(e, lambda l, want=want: norm(_strip_str(l)) in want)
                     if base is not None and not any(s[1] is e for s in sites):
                         # the outermost wrapper and the join inside it are the same site: keep the first (outermost) one only
                         if any(e in list(ast.walk(s[1])) for s in sites):
@@ -279,4 +429,14 @@ def r13(ctx: RuleCtx) -> None:
                         f'under `{label}` an {role} is resolved as `{short(e, 90)}`, whose base {", ".join("`" + short(b, 40) + "`" for b in base)} does not depend on `{tp}` '
                         f'(origins: {sorted(o for b in base for o in fl.origins(b))[:6]}): strings in the meson.build of a subdirectory are relative to that directory, so the '
                         'sources of a subdir target are taken for other files - a requested file is wrongly skipped as already present, or an existing one is added twice / not found', e)
+            # the joined path is compared with the requested file: strings in build files may be spelled with `..` (`../common/util.c` in a
+            # subdirectory), and neither str nor Path equality collapses `..`: the join must go through a normaliser before it is compared
+            verdict = _normalised_before_compare(fn, e)
+            if verdict is None:
+                ctx.note(f'{qn}: how `{short(e, 60)}` is compared was not read (not judged)')
+            else:
+                ctx.require(verdict[0], f'{qn}: the joined path of an {role} is normalised ({"/".join(NORMALISERS)}) before it is compared', mod, qn,
+                            f'normalisation of the path of an {role} in {qn.split(".")[-1]}',
+                            f'`{short(verdict[1], 90)}` compares the path of an {role} as joined, without os.path.normpath / .resolve(): a source spelled with a `..` component '
+                            "(`'../common/util.c'` in app/meson.build) never equals the requested <root>/common/util.c - `target rm` reports 'Unable to find source' and leaves the file in the target", verdict[1])
     ctx.floor('places where an existing source string is joined onto a base directory', n, 2)
